@@ -652,3 +652,94 @@ def hook_walk(rep, rule, u):
                'holds each hook across its call' if not probs else
                {'problems': sorted(set(probs))[:3]}, construct='hook-walk')
     rep.require(n_sites >= 1, 'no indexed read of adapter_hooks found in the C code')
+
+
+def adapt_dispatch(rep, rule, u, imod):
+    """Virtual dispatch parity of __adapt__: the Python reference calls methods
+    ON self (today `self.providedBy(obj)`), which an interface may override
+    with @interfacemethod.  For each such method the C twin must either
+    dispatch as well (a method call on self) or - when it inlines the default
+    implementation - the class writer (InterfaceClass.__new__) must route every
+    interface overriding that method to the Python `__adapt__`: on every path
+    where '<m>' is among the interface methods and no `__adapt__` is given or
+    inherited, it installs `InterfaceBasePy.__adapt__` among them (which then
+    also sets the flag that makes the C __call__ use it, C14 R14.3)."""
+    import ast
+    from ..pyfront import find_def, methods_of
+    from ..sympath import summaries as _S, normal as _N
+    from .sem import nt as _nt
+    from .cside import ccheck
+    ib = find_def(imod, 'InterfaceBase')
+    ad = methods_of(ib)['__adapt__']
+    virt = set()
+    for ps in _S(ad, normal_only=False):
+        for e in ps.events:
+            if e.kind == 'call' and isinstance(e.r, ast.Call) and \
+                    isinstance(e.r.func, ast.Attribute) and _nt(e.r.func.value) == 'self':
+                virt.add(e.r.func.attr)
+    rep.require(bool(virt), 'InterfaceBase.__adapt__ calls no method on self '
+                '(providedBy confirmed by hand)')
+    cdisp = set()
+    for n in ccfg(u.func('IB__adapt__')).nodes:
+        for c in node_calls(n):
+            if c.a[0] in ('PyObject_CallMethodObjArgs', 'PyObject_CallMethod',
+                          'PyObject_CallMethodOneArg', 'PyObject_CallMethodNoArgs') \
+                    and c.a[1] and c.a[1][0] is not None and c.a[1][0].k == 'var' \
+                    and c.a[1][0].a[0] == 'self' and len(c.a[1]) > 1:
+                m = c.a[1][1]
+                if m is not None and m.k == 'var':
+                    cdisp.add(re.sub(r'^str_?', '', m.a[0]))
+                elif m is not None and m.k == 'str':
+                    cdisp.add(m.a[0])
+    new = find_def(imod, 'InterfaceClass.__new__')
+    for m in sorted(virt):
+        if m in cdisp:
+            ccheck(rep, rule, 'IB__adapt__', True,
+                   'self.%s(...) is a method call in C too' % m,
+                   construct='devirtualised:' + m)
+            continue
+        probs = []
+        looked = 0
+        for ps in _N(_S(new)):
+            has = None
+            for c, t, p in ps.order:
+                if c.startswith("'%s' in " % m):
+                    has = t
+            if has is None:
+                continue
+            looked += 1
+            own = inh = None
+            for c, t, p in ps.order:
+                if c.startswith("'__adapt__' in "):
+                    own = t if own is None else own
+                if c.startswith("getattr(cls, '_CALL_CUSTOM_ADAPT'") or \
+                        c == 'cls._CALL_CUSTOM_ADAPT' or \
+                        c.startswith("hasattr(cls, '_CALL_CUSTOM_ADAPT'"):
+                    inh = t if inh is None else inh
+            put = [e for e in ps.stores() if isinstance(e.r, ast.Subscript)
+                   and _nt(e.r.slice) == "'__adapt__'"]
+            flag = [e for e in ps.stores() if isinstance(e.r, ast.Subscript)
+                    and _nt(e.r.slice) == "'_CALL_CUSTOM_ADAPT'"]
+            if has and own is False and inh is False:
+                if len(put) != 1 or _nt(put[0].val) not in (
+                        'InterfaceBasePy.__adapt__', "InterfaceBasePy.__dict__['__adapt__']"):
+                    probs.append("an interface overriding %s (no __adapt__ of its own or "
+                                 "inherited) keeps the C __adapt__, which inlines the "
+                                 "default %s: stores %s" % (m, m, [_nt(e.val)[:40] for e in put]))
+                elif len(flag) != 1:
+                    probs.append('the Python __adapt__ is installed but the flag that '
+                                 'makes the C __call__ use it is not set')
+            elif put and (not has or own or inh):
+                probs.append('__adapt__ is replaced although %s is not overridden / an '
+                             '__adapt__ is given or inherited (has=%s own=%s inherited=%s)'
+                             % (m, has, own, inh))
+        if not looked:
+            probs.append('IB__adapt__ inlines the default %s (no method call on self), and '
+                         'InterfaceClass.__new__ never looks whether an interface overrides '
+                         '%s: with the C accelerator the override is ignored by __adapt__ and '
+                         '__call__, the Python reference honours it' % (m, m))
+        ccheck(rep, rule, 'IB__adapt__', not probs,
+               'the C twin inlines the default %s; interfaces overriding it are routed '
+               'to the Python __adapt__ by InterfaceClass.__new__' % m
+               if not probs else {'problems': sorted(set(probs))[:3]},
+               construct='devirtualised:' + m)
